@@ -42,6 +42,9 @@ structure Win1 where
   deriving Repr, DecidableEq
 
 def Win1.len (w : Win1) : Int := w.hi - w.lo
+
+/-- the pixel indices of a window, in order -/
+def Win1.indices (w : Win1) : List Int := (List.range (w.hi - w.lo).toNat).map fun (k : Nat) => w.lo + (k : Int)
 def Win1.mem (w : Win1) (x : Int) : Prop := w.lo ≤ x ∧ x < w.hi
 instance (w : Win1) (x : Int) : Decidable (w.mem x) := by unfold Win1.mem; exact inferInstance
 def Win1.inter (a b : Win1) : Win1 := ⟨max a.lo b.lo, min a.hi b.hi⟩
